@@ -302,6 +302,11 @@ theorem backupPrelude_runs (hlen : ∀ d, subdirNameChars ≤ (H d).length) {src
   have hlast : RunsAt lastBandId s (.ok (maxNat? (bandIdsOf s))) s [] := fun w hw => by
     have := lastBandId_runs hw.quiet (by rw [hw.store]; exact hst.root)
     rwa [hw.store] at this
+  -- the second look at the lock: still no GC_LOCK after the band directory and head were added
+  have hlock2 : RunsAt gcLockListed (withNewBand s) (.ok false) (withNewBand s) [] := fun w hw => by
+    have := gcLockListed_runs hw.quiet (by rw [hw.store]; exact hst1.root)
+    rw [hw.store] at this
+    rwa [lockListedOf_of_get?_none (by rw [get?_withNewBand]; simpa using hg.noLock)] at this
   have hblocks : RunsAt listBlocks (withNewBand s) (.ok (blockNamesOf (withNewBand s))) (withNewBand s) [] :=
     fun w hw => by
       have := listBlocks_runs hw.quiet (by rw [hw.store]; exact hst1.blockRoot)
@@ -336,6 +341,8 @@ theorem backupPrelude_runs (hlen : ∀ d, subdirNameChars ≤ (H d).length) {src
     simp only [Bool.false_eq_true, if_false]
     refine RunsAt.bind0 hlast ?_
     refine RunsAt.bind0 (bandCreate_runs hst) ?_
+    refine RunsAt.bind0 hlock2 ?_
+    simp only [Bool.false_eq_true, if_false]
     refine RunsAt.bind0 hblocks ?_
     simp only [hmax]
     exact RunsAt.ret _ _
@@ -383,6 +390,8 @@ theorem backupPrelude_runs (hlen : ∀ d, subdirNameChars ≤ (H d).length) {src
       simp only [Bool.false_eq_true, if_false]
       refine RunsAt.bind0 hlast ?_
       refine RunsAt.bind0 (bandCreate_runs hst) ?_
+      refine RunsAt.bind0 hlock2 ?_
+      simp only [Bool.false_eq_true, if_false]
       refine RunsAt.bind0 hblocks ?_
       simp only [hmax]
       have hle := listEntries_runsAt hwf1 b [slash] (fun _ => false)
